@@ -155,6 +155,8 @@ func c35PanicKey(msg string) string {
 		return "store-panic:allowed-kind-not-storable:complex128"
 	case strings.Contains(msg, "uint64 values with high bit set"):
 		return "store-panic:uint64-above-maxint64"
+	case strings.Contains(msg, "location.ID"):
+		return "location:id-reused:index-build-panic"
 	case strings.Contains(msg, "unsupported type"):
 		return "store-panic:allowed-kind-not-storable:other"
 	}
@@ -192,8 +194,21 @@ func c35Run(cs c35Case) (string, []lib.Problem) {
 	var rec datarecording.DataRecorder
 	closed := false
 	defer func() {
+		// After a failure the recorder's own Close may panic again before it
+		// reaches the database handle: close the embedded *sql.DB directly so
+		// that no file descriptor outlives the case.
 		if rec != nil && !closed {
-			lib.Catch(func() { _ = rec.Close() })
+			lib.Catch(func() {
+				v := reflect.ValueOf(rec)
+				if v.Kind() == reflect.Ptr {
+					v = v.Elem()
+				}
+				if f := v.FieldByName("DB"); f.IsValid() && f.CanInterface() {
+					if db, ok := f.Interface().(*sql.DB); ok && db != nil {
+						_ = db.Close()
+					}
+				}
+			})
 		}
 	}()
 	stage := "create"
@@ -255,7 +270,6 @@ func c35Run(cs c35Case) (string, []lib.Problem) {
 	}
 	var cerr error
 	if msg := lib.Catch(func() { cerr = rec.Close() }); msg != "" || cerr != nil {
-		closed = true
 		bad(c35PanicKey(msg), "Close: panic=%q err=%v", msg, cerr)
 		return "panic-close", probs
 	}
